@@ -102,7 +102,7 @@ def run(ctx):
         'lead_spin': dict(spec='Scheduler', cfg='Scheduler.Lead_NoSpin.cfg', timeout=ts * 420, workers=1, count=False),
         'lead_rel': dict(spec='Scheduler', cfg='Scheduler.Lead_Release.cfg', timeout=ts * 420, workers=1, count=False),
         'sim': dict(spec='Scheduler', cfg='Scheduler.Sim.cfg', timeout=ts * (420 if quick else 900), workers=nw,
-                    simulate={'num': 150 if quick else 4000}, depth=70 if quick else 110, count=False),
+                    simulate={'num': 150 if quick else 1500}, depth=70 if quick else 110, count=False),
     }
     res = {}
     with cf.ThreadPoolExecutor(max_workers=2) as ex:
@@ -135,7 +135,7 @@ def run(ctx):
     # ------------------------------------------------------------ replay: every history up to the bound + deep behaviours
     blocks = _closed_histories(res['gen'].dump_path)
     total_hist = len(blocks)
-    budget = 1500 if quick else 12000
+    budget = 1500 if quick else 8000
     chosen_blocks = vlib.sample_list(ctx.rng, blocks, budget)
     cases = [_case_of_block(b) for b in chosen_blocks]
     ctx.exhaustive = (len(cases) == total_hist)
@@ -147,7 +147,7 @@ def run(ctx):
         if len(st['hist']) >= 4:
             cases.append({'mode': 'replay', 'prof': st['prof'], 'steps': st['hist']})
             nsim += 1
-    nconc = 1 if quick else 3
+    nconc = 1 if quick else 2
     allcases = []
     for k in range(nconc):
         for i, c in enumerate(cases):
@@ -180,6 +180,17 @@ def run(ctx):
                 ctx.infra.append('record: ' + r.get('msg', '')[:300])
             else:
                 ctx.divergences.append({'case': rec_cases[r['id']], 'result': r})
+
+    if os.environ.get('VERIF_C24_SELFTEST') == 'corrupt_trace' and cres[0].get('ok'):
+        # self-test of the binding: change one logged scheduledFor in trace file 0; the validation must reject the file (and,
+        # the re-recordings being genuine, end as a counted recorder drift, not as a violation)
+        tl0 = [json.loads(x) for x in open(rec_cases[0]['out'])]
+        for e in tl0:
+            if e.get('ev') == 'start':
+                e['sf'] += 1
+                break
+        with open(rec_cases[0]['out'], 'w') as f:
+            f.writelines(json.dumps(e) + '\n' for e in tl0)
 
     def val(i):
         c = rec_cases[i]
@@ -221,22 +232,42 @@ def run(ctx):
         if hw is None:
             ctx.infra.append(f'trace validation failed to run (trace file {i}): ' + r.stdout[-600:])
             continue
-        # rejected: the recorder advances the clock when the scheduler has been silent for 40 ms; on a heavily loaded machine
-        # that may not be a quiescent point (clock.Mock.Add is not atomic). Record the same workload again with a 600 ms
-        # silence; only a rejection that repeats is reported, otherwise the result is inconclusive (never a violation).
-        c2 = dict(c, out=ctx.tmp(f'traces/t{i}_again.ndjson'), quietMs=600)
-        rr, _ = ctx.replay(binary, [c2], procs=1, par=1, timeout=ts * 600)
-        again = None
-        if rr[0].get('ok'):
-            again, hwa = _validate(ctx, 'TraceScheduler.Accept.cfg' if c['ntasks'] == 2 else 'TraceScheduler.AcceptT3.cfg', c2['out'],
-                                   f'trace{i}c', ts * (420 if quick else 900))
-        if again is None or again.timed_out or again.ok:
-            ctx.infra.append(f'recorded trace {i} was rejected at line {hw[0] + 1} of {hw[1]} but the same workload recorded again with a '
-                             f'600 ms quiescence wait was {"accepted" if again is not None and again.ok else "not validated"}: unrepeatable (timing)')
+        # rejected. The recorder advances the clock when the scheduler has been silent for 40 ms; if that was not a quiescent
+        # point the recorded order of harness events can differ from the order of the scheduler's own steps (clock.Mock.Add is
+        # not atomic): a recorder artefact. The same workload (same seed) is recorded again with growing quiescence waits; an
+        # accepted re-recording turns the first rejection into a counted recorder-timing drift, and only a rejection that
+        # persists across all re-recordings is reported.
+        acfg = 'TraceScheduler.Accept.cfg' if c['ntasks'] == 2 else 'TraceScheduler.AcceptT3.cfg'
+        first = f'line {hw[0] + 1} of {hw[1]}: {json.dumps(tl[hw[0]]) if hw[0] < len(tl) else "?"}'
+        persisted, infra_msg, last_hw, last_tl = True, None, hw, tl
+        for k, q in enumerate((600, 2000)):
+            c2 = dict(c, out=ctx.tmp(f'traces/t{i}_again{k}.ndjson'), quietMs=q)
+            rr, _ = ctx.replay(binary, [c2], procs=1, par=1, timeout=ts * 1200)
+            if not rr[0].get('ok'):
+                infra_msg = f're-recording of trace file {i} failed: ' + str(rr[0].get('msg', ''))[:300]
+                break
+            again, hwa = _validate(ctx, acfg, c2['out'], f'trace{i}r{k}', ts * (420 if quick else 900))
+            if again.timed_out or (not again.ok and hwa is None):
+                infra_msg = f'validation of the re-recorded trace file {i} did not finish'
+                break
+            if again.ok:
+                persisted = False
+                accepted += int((rr[0].get('extra') or {}).get('traces', 0))
+                trace_lines += sum(1 for _ in open(c2['out']))
+                ctx.drift['recorder_timing_rejection_not_repeated'] = ctx.drift.get('recorder_timing_rejection_not_repeated', 0) + 1
+                ctx.extra_cov.setdefault('recorder_timing_drift', []).append(
+                    {'trace_file': i, 'first_rejection': first, 'accepted_with_quiescence_ms': q, 'context': tl[max(0, hw[0] - 8):hw[0] + 1]})
+                break
+            last_hw, last_tl = hwa, [json.loads(x) for x in open(c2['out'])]
+        if infra_msg:
+            ctx.infra.append(infra_msg)
             continue
-        ctx.divergences.append({'case': {'mode': 'trace', 'file': i, 'lines': tl[max(0, hw[0] - 12):hw[0] + 1]},
-                                'result': {'msg': f'recorded trace is not a behaviour of Scheduler.tla: no action explains line {hw[0] + 1} of {hw[1]}: '
-                                                  f'{json.dumps(tl[hw[0]]) if hw[0] < len(tl) else "?"} (rejected again when recorded with a 600 ms quiescence wait)',
+        if not persisted:
+            continue
+        ctx.divergences.append({'case': {'mode': 'trace', 'file': i, 'lines': tl[max(0, hw[0] - 12):hw[0] + 1],
+                                         'rerecorded_lines': last_tl[max(0, last_hw[0] - 12):last_hw[0] + 1]},
+                                'result': {'msg': f'recorded trace is not a behaviour of Scheduler.tla: no action explains {first} '
+                                                  '(rejected again when recorded with 600 ms and 2 s quiescence waits)',
                                            'patterns': [], 'step': hw[0]}})
     ctx.traces_validated += accepted
     ctx.extra_cov['recorded_traces_accepted'] = accepted
